@@ -16,7 +16,7 @@ mcvars == <<st, last, path, used>>
 
 \* states are identified by the projection the guards depend on; the ghosts
 \* (label list, path, last call) ride along with the first representative
-View == <<st.len, st.open, st.cur, st.ok>>
+View == <<st.len, st.open, st.cur, st.ok, st.fresh>>
 
 ---------------------------------------------------------------------------
 (* Arguments: fixed boundary values plus values placed relative to the     *)
@@ -44,6 +44,10 @@ SymKinds == {"dot", "escdot", "bracket", "ord", "dec", "bad"}
 
 \* only well-formed builders are driven further; a malformed one (reachable
 \* only through D_append_name_open_label) is observed but not expanded
+\* a builder whose open label's length octet happens to be up to date differs
+\* from the ordinary one only in what D_append_name_open_label makes of it:
+\* only append_name is explored from there
+Plain == ~st.fresh
 Expand == /\ st.ok
           /\ (Band = 0 \/ st.len <= 2 * Band \/ st.len >= MaxRel - 2 * Band
                        \/ st.cur <= Band \/ st.cur >= MaxLabel - Band
@@ -73,7 +77,8 @@ DevDiff(op, arg) ==
 Case(op, arg) ==
   IF used = {}
   THEN \* the executor builds a builder with this projection itself
-       [in |-> [s |-> Proj(st), o |-> op, a |-> arg],
+       \* (f: its length octet is to be made `fresh` by a failed append_label)
+       [in |-> [s |-> Proj(st), f |-> st.fresh, o |-> op, a |-> arg],
         exp |-> Obs(StepF(st, op, arg, {}), op), dev |-> DevDiff(op, arg)]
   ELSE \* only code with deviations gets here, along the recorded path; what
        \* it then does may be any combination of the open deviations (some
@@ -89,22 +94,22 @@ Emit(op, arg) == EmitCases => PrintT("CASE " \o ToJson(Case(op, arg)))
 MDo(op, arg) ==
   /\ Do(op, arg)
   /\ path' = Append(path, <<op, arg>>)
-  /\ used' = used \cup {d \in Dev : StepF(st, op, arg, Dev \ {d}) # StepF(st, op, arg, Dev)}
+  /\ used' = used \cup {d \in Dev : Obs(StepF(st, op, arg, Dev \ {d}), op) # Obs(StepF(st, op, arg, Dev), op)}
   /\ Emit(op, arg)
 
 MInit == Init /\ path = <<>> /\ used = {}
 
-A_Push         == Expand /\ MDo("push", <<>>)
-A_AppendSlice  == Expand /\ \E n \in SliceLens : MDo("append_slice", <<n>>)
-A_EndLabel     == Expand /\ MDo("end_label", <<>>)
-A_AppendLabel  == Expand /\ \E n \in SliceLens : MDo("append_label", <<n>>)
+A_Push         == Plain /\ Expand /\ MDo("push", <<>>)
+A_AppendSlice  == Plain /\ Expand /\ \E n \in SliceLens : MDo("append_slice", <<n>>)
+A_EndLabel     == Plain /\ Expand /\ MDo("end_label", <<>>)
+A_AppendLabel  == Plain /\ Expand /\ \E n \in SliceLens : MDo("append_label", <<n>>)
 A_AppendName   == Expand /\ \E w \in NameWires : MDo("append_name", RelOfWire(w))
-A_AppendDigits == Expand /\ \E k \in 1..3 : MDo("append_digits", <<k>>)
-A_PushSymbol   == Expand /\ \E kd \in SymKinds : MDo("push_symbol", kd)
+A_AppendDigits == Plain /\ Expand /\ \E k \in 1..3 : MDo("append_digits", <<k>>)
+A_PushSymbol   == Plain /\ Expand /\ \E kd \in SymKinds : MDo("push_symbol", kd)
 \* (observers of any state, malformed ones included)
-A_Finish       == st.len >= 0 /\ MDo("finish", <<>>)
-A_IntoName     == st.len >= 0 /\ MDo("into_name", <<>>)
-A_AppendOrigin == \E w \in NameWires : MDo("append_origin", RelOfWire(w))
+A_Finish       == Plain /\ MDo("finish", <<>>)
+A_IntoName     == Plain /\ MDo("into_name", <<>>)
+A_AppendOrigin == Plain /\ \E w \in NameWires : MDo("append_origin", RelOfWire(w))
 
 MNext == \/ A_Push \/ A_AppendSlice \/ A_EndLabel \/ A_AppendLabel \/ A_AppendName
          \/ A_AppendDigits \/ A_PushSymbol \/ A_Finish \/ A_IntoName \/ A_AppendOrigin
@@ -120,7 +125,7 @@ P_NoPanic     == [][last'.res # "panic"]_mcvars
 P_LabelOctet  ==
   [][(last'.op = "end_label" /\ st.open /\ st.ok)
        => (st'.ok /\ st'.labs = Append(st.labs, st.cur) /\ st'.len = st.len)]_mcvars
-P_ErrUnchanged == [][(last'.res # "ok" /\ last'.op \in AtomicOps) => st' = st]_mcvars
+P_ErrUnchanged == [][(last'.res # "ok" /\ last'.op \in AtomicOps) => Same(st', st)]_mcvars
 P_ErrUsable    == [][(last'.res # "ok" /\ LimitsOf(st)) => (LimitsOf(st') /\ st'.len >= st.len)]_mcvars
 P_Monotone     == [][st'.len >= st.len]_mcvars
 \* an accepted call never leaves the limits (the inductive step of Limits)
